@@ -1,4 +1,4 @@
-"""Concrete argument pools per contract (witness search / bounded stand-in)."""
+"""Concrete argument pools per contract (witness search / native cross-check / bounded stand-in)."""
 import importlib
 import inspect
 import itertools
@@ -9,20 +9,25 @@ from bounded import gen
 def resolve(key):
     """'pkg.mod:Qual.name' -> live (owner, attribute object)."""
     modname, qual = key.split(":")
+    qual = qual.replace("@setter", "")
     obj = importlib.import_module(modname)
     owner = None
     for p in qual.split("."):
         owner = obj
+        if inspect.isfunction(obj):
+            return owner, None       # nested function: no live handle
         obj = inspect.getattr_static(obj, p) if inspect.isclass(obj) else getattr(obj, p)
     return owner, obj
 
 
 def live_function(key, inst=None):
     owner, obj = resolve(key)
+    if obj is None:
+        return None
     if isinstance(obj, (staticmethod, classmethod)):
         return obj.__func__
     if isinstance(obj, property):
-        return obj.fget
+        return obj.fset if key.endswith("@setter") else obj.fget
     return obj
 
 
@@ -33,14 +38,10 @@ def all_validators():
     """Validator instances harvested from the element pool (real from_element paths), by class name."""
     global _validators_cache
     if _validators_cache is None:
-        from statham.schema.elements.meta import ObjectMeta
         by = {}
         for mk in gen.elements(2):
             try:
                 e = mk()
-            except Exception:
-                continue
-            try:
                 vs = list(e.validators)
             except Exception:
                 continue
@@ -50,59 +51,190 @@ def all_validators():
     return _validators_cache
 
 
-def element_instances(level=2):
+def element_makers(level=2):
+    return list(gen.elements(level))
+
+
+def instances_of(cls_name):
     out = []
-    for mk in gen.elements(level):
+    for mk in element_makers():
         try:
-            out.append(mk)
+            e = mk()
         except Exception:
-            pass
+            continue
+        if type(e).__name__ == cls_name:
+            out.append(mk)
     return out
+
+
+KEYS = ["a", "b", "ab", "a-b", "a_b", "class", "", "x1", "zz", "p1"]
 
 
 def pool(contract, seed=0, limit=4000):
     """Yield (callable, args) pairs to run under the contract's runtime monitor."""
+    from statham.schema.elements.base import UNBOUND_PROPERTY
     key = contract.key
     qual = key.split(":")[1]
     fn = live_function(key)
-    params = list(inspect.signature(fn).parameters)
-    n = 0
-    if qual.endswith("._validate") or (qual.endswith(".__call__") and "validation" in key):
-        cname = contract.inst or qual.split(".")[0]
-        insts = all_validators().get(cname, [])
-        for v in insts:
-            for val in gen.values_for(None):
-                if qual.endswith("._validate"):
-                    yield fn, (v, val)
-                else:
-                    from statham.schema.elements.base import UNBOUND_PROPERTY
-                    yield fn, (v, val, UNBOUND_PROPERTY)
-                n += 1
-                if n >= limit:
-                    return
+    if fn is None:
         return
-    if qual.endswith(".from_element"):
+    cls_name = qual.split(".")[0] if "." in qual else None
+    meth = qual.split(".")[-1].replace("@setter", "")
+    n = 0
+
+    def cap(it):
+        nonlocal n
+        for x in it:
+            yield x
+            n += 1
+            if n >= limit:
+                return
+    vals = gen.values_for(None)
+    if qual.endswith("._validate") or (qual.endswith(".__call__") and "validation" in key and cls_name == "Validator") \
+            or (cls_name == "Validator" and meth in ("error_message",)) or (key.endswith("error_message") and "validation" in key):
+        cname = contract.inst or cls_name
+        insts = all_validators().get(cname, [])
+        if meth == "error_message":
+            yield from cap((fn, (v,)) for v in insts)
+            return
+        if meth == "_validate":
+            yield from cap((fn, (v, val)) for v in insts for val in vals)
+        else:
+            yield from cap((fn, (v, val, UNBOUND_PROPERTY)) for v in insts for val in vals)
+        return
+    if meth == "from_element":
         owner, _ = resolve(key)
         cls = owner
         if contract.inst:
             import statham.schema.validation as V
             cls = getattr(V, contract.inst)
-        for mk in element_instances():
-            try:
-                e = mk()
-            except Exception:
-                continue
-            yield fn, (cls, e)
+
+        def gen_fe():
+            for mk in element_makers():
+                try:
+                    yield fn, (cls, mk())
+                except Exception:
+                    continue
+        yield from cap(gen_fe())
+        return
+    if cls_name == "Element" and meth in ("validators", "type_validator", "__items__", "__properties__"):
+        yield from cap((fn, (mk(),)) for mk in instances_of(contract.inst or "Element"))
+        return
+    if cls_name in ("String", "Integer", "Number", "Boolean", "Null", "Array", "Nothing") and meth in ("type_validator", "validators"):
+        yield from cap((fn, (mk(),)) for mk in instances_of(cls_name))
+        return
+    if cls_name == "Element" and meth == "construct":
+        yield from cap((fn, (mk(), v, UNBOUND_PROPERTY)) for mk in instances_of(contract.inst or "Element") for v in vals)
+        return
+    if key.endswith(":get_validators"):
+        yield from cap((fn, (mk(),)) for mk in element_makers())
+        return
+    if key.endswith(":replace_bool") or key.endswith(":_parse_literal"):
+        yield from cap((fn, (v,)) for v in gen.json_values(2, 2))
+        return
+    if key.endswith(":_is_instance"):
+        tys = [(int,), (int, float), (bool,), (str,), (list,), (dict,), (), (bool, int), (type(None),)]
+        yield from cap((fn, (v, t)) for v in vals for t in tys)
+        return
+    if cls_name == "Items":
+        def items_objs():
+            for mk in element_makers():
+                try:
+                    yield mk().__items__
+                except Exception:
+                    continue
+        if meth == "__getitem__":
+            yield from cap((fn, (it, i)) for it in items_objs() for i in range(0, 4))
+        elif meth == "__call__":
+            yield from cap((fn, (it, v, UNBOUND_PROPERTY)) for it in items_objs() for v in vals if isinstance(v, list))
+        elif meth == "property":
+            yield from cap((fn, (UNBOUND_PROPERTY, i)) for i in range(3))
+        elif meth == "__init__":
+            from statham.schema.elements import Element, Nothing, String
+            from statham.schema.elements.items import Items
+            from statham.schema.constants import NotPassed
+            for items in (NotPassed(), String(), Nothing(), [], [String()], Element()):
+                for addl in (True, False, String(), Nothing()):
+                    yield (lambda i, a: Items(i, a)), (items, addl)
+        return
+    if cls_name in ("Properties", "PatternDict"):
+        def props_objs():
+            for mk in element_makers():
+                try:
+                    e = mk()
+                    if not isinstance(e, type) or True:
+                        yield e.__properties__
+                except Exception:
+                    continue
+        if cls_name == "PatternDict":
+            yield from cap((lambda p, k: list(p.getall(k)), (po.pattern, k)) for po in props_objs() for k in KEYS) if False else cap(
+                (fn, (po.pattern, k)) for po in props_objs() for k in KEYS)
+            return
+        if meth in ("__getitem__", "__contains__"):
+            yield from cap((fn, (po, k)) for po in props_objs() for k in KEYS)
+        elif meth == "__call__":
+            yield from cap((fn, (po, v)) for po in props_objs() for v in vals if isinstance(v, dict))
+        elif meth == "property":
+            from statham.schema.elements import String
+            yield from cap((fn, (po, String(), k)) for po in props_objs() for k in KEYS[:4])
+        return
+    if cls_name == "_Property":
+        def props():
+            for mk in element_makers():
+                try:
+                    e = mk()
+                    for p in (getattr(e, "properties", None) or {}).values():
+                        yield p
+                except Exception:
+                    continue
+            from statham.schema.elements import String
+            from statham.schema.property import Property
+            yield Property(String())
+            yield Property(String(), source="")
+            yield Property(String(), required=True, source="x")
+        if meth == "bind":
+            from statham.schema.elements import Element
+            yield from cap((fn, (p.clone(), nm, par)) for p in props() for nm in ("a", "", None) for par in (None, Element()))
+        elif meth in ("clone",):
+            yield from cap((fn, (p,)) for p in props())
+        elif meth == "evolve":
+            yield from cap((fn, (p, nm)) for p in props() for nm in ("a", "b[0]", ""))
+        elif meth == "__call__":
+            yield from cap((fn, (p, v)) for p in props() for v in vals[::3])
+        return
+    if key.endswith(":_attempt_schema"):
+        yield from cap((fn, (mk(), v, UNBOUND_PROPERTY)) for mk in element_makers(1) for v in vals[::4])
+        return
+    if key.endswith(":_attempt_schemas"):
+        from statham.schema.elements import Element, Integer, String, Number
+        groups = [[String(), Integer()], [Integer(), Number()], [Element(minimum=1), Element(maximum=3)], [String()], [Element(), Element()]]
+        yield from cap((fn, (g, v, UNBOUND_PROPERTY, m)) for g in groups for v in vals[::2] for m in ("anyOf", "oneOf", "allOf"))
+        return
+    if cls_name == "Not" and meth == "construct":
+        yield from cap((fn, (mk(), v, UNBOUND_PROPERTY)) for mk in instances_of("Not") for v in vals)
+        return
+    if key.split(":")[0].endswith("parser") and meth in ("parse_element", "_parse_contains", "_parse_property_names", "_parse_additional_properties",
+                                                         "_parse_additional_items"):
+        import copy
+        from bounded import schemas
+        docs = schemas.quick()
+        for kw in ("if", "then", "$defs", "unevaluatedItems"):
+            docs += [{kw: {}}, {"type": "string", kw: {}}, {"contains": {kw: {}}}, {"propertyNames": {kw: True}}, {"additionalProperties": {kw: {}}},
+                     {"items": [{}], "additionalItems": {kw: {}}}]
+        yield from cap((fn, (copy.deepcopy(d), None)) for d in docs)
         return
     # generic: by parameter names
+    try:
+        params = list(inspect.signature(fn).parameters)
+    except (TypeError, ValueError):
+        return
     choices = []
     for p in params:
         if p in ("value", "literal", "data"):
-            choices.append([lambda v=v: v for v in gen.values_for(None)])
+            choices.append([lambda v=v: v for v in vals])
         elif p in ("element", "self", "dependency"):
-            choices.append(element_instances())
+            choices.append(element_makers())
         elif p in ("property_", "_property"):
-            from statham.schema.elements.base import UNBOUND_PROPERTY
             choices.append([lambda: UNBOUND_PROPERTY])
         else:
             return
